@@ -297,7 +297,13 @@ def history_list(tier):
                 continue               # a history ends with an observation
             if sum(1 for o in h if o == 'new_big') > 1 or sum(1 for o in h if o == 'boot') > 1 or sum(1 for o in h if o == 'remove') > 1:
                 continue
-            if 'new_big' in h and tier == 'quick' and len(h) > 3:
+            if 'new_big' in h and tier == 'quick' and len(h) > 3 and not set(h[1:]) <= {'ll', 'sim'}:
+                continue
+            out.append(list(h))
+    if tier == 'quick':
+        # depth 5 over the sub-alphabet that changes what the engine holds (new model, remove, bootstrap) + the observation
+        for h in itertools.product(['new', 'remove', 'boot', 'll', 'sim'], repeat=5):
+            if h[0] != 'new' or h[-1] != 'll' or h.count('boot') > 1 or h.count('remove') > 1:
                 continue
             out.append(list(h))
     return out
